@@ -141,7 +141,7 @@ func (ck *Check) finish(level string) int {
 		}
 		return nil
 	}
-	replayDir := filepath.Join(ck.Verif, "replays", ck.Prop)
+	replayDir := filepath.Join(ck.outDir(), "replays", ck.Prop)
 	os.RemoveAll(replayDir)
 	obligations, discharged := 0, 0
 	byBackend := map[string]int{}
@@ -310,7 +310,7 @@ func (ck *Check) finish(level string) int {
 	}
 	ev := Evidence{PropertyID: ck.Prop, Tier: ck.Tier, Seed: seedFromEnv(), Level: level, Coverage: cov, Assumptions: trusted,
 		WallS: round2(time.Since(ck.T0).Seconds()), Violations: violations}
-	if err := writeJSON(filepath.Join(ck.Verif, "evidence", ck.Prop+".json"), ev); err != nil {
+	if err := writeJSON(filepath.Join(ck.outDir(), "evidence", ck.Prop+".json"), ev); err != nil {
 		fmt.Fprintln(os.Stderr, "engine error: evidence:", err)
 		return 2
 	}
@@ -619,7 +619,7 @@ func checkC19(ck *Check) int {
 			found = true
 		}
 	}
-	replayDir := filepath.Join(ck.Verif, "replays", ck.Prop)
+	replayDir := filepath.Join(ck.outDir(), "replays", ck.Prop)
 	os.RemoveAll(replayDir)
 	violations := 0
 	if !found {
@@ -645,7 +645,7 @@ func checkC19(ck *Check) int {
 	ev := Evidence{PropertyID: ck.Prop, Tier: ck.Tier, Seed: seedFromEnv(), Level: "exploration", Coverage: cov,
 		Assumptions: []string{"bounded: trees with more nodes than the bound are not explored", "errors.Join builds the tree as documented"},
 		WallS:       round2(time.Since(ck.T0).Seconds()), Violations: violations}
-	writeJSON(filepath.Join(ck.Verif, "evidence", ck.Prop+".json"), ev)
+	writeJSON(filepath.Join(ck.outDir(), "evidence", ck.Prop+".json"), ev)
 	fmt.Printf("%s %s: bounded stand-in, %d trees, %d cases, %d failures, %.1fs\n", ck.Prop, ck.Tier, trees, cases, fails, time.Since(ck.T0).Seconds())
 	if violations > 0 {
 		return 1
